@@ -376,6 +376,8 @@ class P:
             return e
         if re.fullmatch(r"\d+", t):
             return ("num", int(t))
+        if t == "'\\0'":
+            return ("chr", 0)
         if t[0] == "'":
             b = lit_bytes(t[1:-1], self.fn)
             if len(b) != 1:
@@ -396,6 +398,116 @@ class P:
                 return ("call", t, self.args())
             return ("var", t)
         raise Refuse(f"{self.fn}: expression not understood at {t!r}")
+
+
+# ---- helper inlining and normalisation ---------------------------------------------------------------------------
+def map_expr(e, f):
+    """bottom-up rewrite of an expression tree"""
+    k = e[0]
+    if k in ("num", "chr", "str", "bool", "var"):
+        r = e
+    elif k in ("not", "deref"):
+        r = (k, map_expr(e[1], f))
+    elif k == "bin":
+        r = ("bin", e[1], map_expr(e[2], f), map_expr(e[3], f))
+    elif k == "idx":
+        r = ("idx", map_expr(e[1], f), map_expr(e[2], f))
+    elif k == "cast":
+        r = ("cast", e[1], map_expr(e[2], f))
+    elif k == "member":
+        r = ("member", map_expr(e[1], f), e[2], [map_expr(a, f) for a in e[3]])
+    elif k in ("scall", "call"):
+        r = (k, e[1], [map_expr(a, f) for a in e[2]])
+    elif k == "ctor":
+        r = ("ctor", [map_expr(a, f) for a in e[1]])
+    elif k == "cond":
+        r = ("cond", map_expr(e[1], f), map_expr(e[2], f), map_expr(e[3], f))
+    else:
+        raise Refuse(f"expression kind {k}")
+    return f(r)
+
+
+def map_stmts(stmts, f):
+    out = []
+    for s in stmts:
+        k = s[0]
+        if k == "decl":
+            out.append(("decl", s[1], s[2], map_expr(s[3], f) if s[3] is not None else None,
+                        [map_expr(a, f) for a in s[4]] if s[4] is not None else None))
+        elif k == "assign":
+            out.append(("assign", s[1], map_expr(s[2], f)))
+        elif k == "mcall":
+            out.append(("mcall", s[1], s[2], [map_expr(a, f) for a in s[3]]))
+        elif k == "if":
+            out.append(("if", map_expr(s[1], f), map_stmts(s[2], f), map_stmts(s[3], f)))
+        elif k == "loop":
+            out.append(("loop", map_stmts(s[1], f), map_expr(s[2], f) if s[2] is not None else None, map_stmts(s[3], f), map_stmts(s[4], f)))
+        elif k == "block":
+            out.append(("block", map_stmts(s[1], f)))
+        elif k == "return":
+            out.append(("return", map_expr(s[1], f)))
+        else:
+            out.append(s)
+    return out
+
+
+def find_helpers(src):
+    """`static [inline] bool name(const char* p) { return <expr>; }` anywhere in the file -> {name: (param, expr)}"""
+    hs = {}
+    for m in re.finditer(r"static\s+(?:inline\s+)?bool\s+([A-Za-z_]\w*)\s*\(\s*const\s+char\s*\*\s*([A-Za-z_]\w*)\s*\)\s*\{\s*return\s+([^;{}]*);\s*\}", src):
+        name, par, body = m.group(1), m.group(2), m.group(3)
+        try:
+            pp = P(tokenize(body, name), name)
+            e = pp.expr()
+            if pp.peek() is not None:
+                continue
+        except Refuse:
+            continue
+        hs[name] = (par, e)
+    return hs
+
+
+def flatten_and(e):
+    if e[0] == "bin" and e[1] == "&&":
+        return flatten_and(e[2]) + flatten_and(e[3])
+    return [e]
+
+
+def norm_index(e):
+    """p[i] == c  ->  (p, i, c) with p[0] also written *p"""
+    if e[0] == "bin" and e[1] == "==" and e[3][0] == "chr":
+        l = e[2]
+        if l[0] == "idx" and l[2][0] == "num":
+            return l[1], l[2][1], e[3][1]
+        if l[0] == "deref":
+            return l[1], 0, e[3][1]
+    return None
+
+
+def normalise(e):
+    """`x[0] == 'a' && x[1] == 'b' && x[2] == '\\0'` (a C-string comparison written out) -> `String::compare(x, "ab") == 0`;
+    `p + 0` -> p"""
+    if e[0] == "bin" and e[1] == "&&":
+        parts = [norm_index(x) for x in flatten_and(e)]
+        if all(x is not None for x in parts) and len(parts) >= 2:
+            base = parts[0][0]
+            if all(x[0] == base and x[1] == i for i, x in enumerate(parts)) and parts[-1][2] == 0 and all(x[2] != 0 for x in parts[:-1]):
+                return ("bin", "==", ("scall", "compare", [base, ("str", [x[2] for x in parts[:-1]])]), ("num", 0))
+    if e[0] == "not" and e[1][0] == "bin" and e[1][1] == "==" and e[1][2][0] == "scall":
+        return ("bin", "!=", e[1][2], e[1][3])
+    if e[0] == "not" and e[1][0] == "bin" and e[1][1] == "!=" and e[1][2][0] == "scall":
+        return ("bin", "==", e[1][2], e[1][3])
+    return e
+
+
+def inline_helpers(stmts, helpers, fn):
+    def f(e):
+        if e[0] == "call" and e[1] in helpers and len(e[2]) == 1:
+            par, body = helpers[e[1]]
+            arg = e[2][0]
+            return map_expr(body, lambda x: arg if x == ("var", par) else normalise(x))
+        return normalise(e)
+    return map_stmts(stmts, f)
 
 
 # ---- renaming of shadowing declarations ------------------------------------------------------------------------------
@@ -1086,7 +1198,7 @@ FUNCS = [
     ("getStem", r"String", "S", True),
     ("getExtension", r"String", "S", True),
     ("isAbsolutePath", r"bool", "B", True),
-    ("simplifyPath", r"String", "S", False),
+    ("simplifyPath", r"String", "S", True),
 ]
 LEAN_TY = {"S": "Bytes", "I": "Int", "U": "Int", "B": "Bool"}
 
@@ -1109,6 +1221,7 @@ def translate_function(src, name, ret_rx, ret, known):
     stmts = p.stmts()
     if p.peek() is not None:
         raise Refuse(f"{fn}: trailing tokens")
+    stmts = inline_helpers(stmts, find_helpers(src), fn)
     used = {n for n, _ in params} | {"ret"}
     stmts = rename(stmts, [dict((n, n) for n, _ in params), {}], used, fn)
     T = Types(fn, params)
